@@ -34,11 +34,11 @@ import (
 const simPath = "github.com/benoitkugler/gomacro/verifsim"
 
 type report struct {
-	Mode          string   `json:"mode"`
-	Sites         []string `json:"sites"`
+	Mode           string   `json:"mode"`
+	Sites          []string `json:"sites"`
 	Uninstrumented []string `json:"uninstrumented_sites"`
-	Mutating      []string `json:"map_mutated_in_loop"`
-	Files         []string `json:"files"`
+	Mutating       []string `json:"map_mutated_in_loop"`
+	Files          []string `json:"files"`
 }
 
 func main() {
